@@ -535,5 +535,106 @@ theorem readValue_write (checkInt : Bool) (f : Nat) (v : JVal) (c : Nat) (r' : L
   | num q => simp [valOK] at hv
   | nested raw => simp [valOK] at hv
 
+/-- what follows a written member: the closing brace, or a comma and the remaining members -/
+def mtail (fs : List (List Nat × JVal)) (tl : List Nat) : List Nat :=
+  match fs with
+  | [] => 125 :: tl
+  | g :: gs => 44 :: (writeMembers (g :: gs) ++ 125 :: tl)
+
+theorem writeMembers_cons (f : List Nat × JVal) (fs : List (List Nat × JVal)) (tl : List Nat) :
+    writeMembers (f :: fs) ++ 125 :: tl
+      = 34 :: ((f.1.map Json.escByte).flatten ++ 34 :: 58 :: (writeVal f.2 ++ mtail fs tl)) := by
+  cases fs with
+  | nil => simp [writeMembers, writeStr, mtail]
+  | cons g gs => simp [writeMembers, writeStr, mtail]
+
+theorem readFields_step (checkInt : Bool) (fuel : Nat) (k : List Nat) (v : JVal) (r r2 r3 : List Nat)
+    (acc : List (List Nat × JVal))
+    (h1 : readStrBody (r.length + 1) r [] = some (k, 58 :: r2))
+    (h2 : readValue checkInt (r2.length + 1) r2 = some (v, r3)) :
+    readFields checkInt (fuel + 1) (34 :: r) acc =
+      match skipWs r3 with
+      | 44 :: r4 => readFields checkInt fuel r4 (acc ++ [(k, v)])
+      | 125 :: _ => (acc ++ [(k, v)], false)
+      | _ => (acc ++ [(k, v)], true) := by
+  rw [readFields, skipWs_cons 34 _ (by decide)]
+  simp only [h1, skipWs_cons 58 _ (by decide), h2]
+  rfl
+
+theorem readFields_members (checkInt : Bool) (f : List Nat × JVal) (fs : List (List Nat × JVal))
+    (tl : List Nat) (fuel : Nat) (acc : List (List Nat × JVal))
+    (h : fieldsOK (f :: fs) = true) (hf : fs.length < fuel) :
+    readFields checkInt fuel (writeMembers (f :: fs) ++ 125 :: tl) acc = (acc ++ f :: fs, false) := by
+  induction fs generalizing f fuel acc with
+  | nil =>
+    cases fuel with
+    | zero => simp at hf
+    | succ g =>
+      obtain ⟨k, v⟩ := f
+      simp only [fieldsOK, List.all_cons, List.all_nil, Bool.and_true, Bool.and_eq_true] at h
+      rw [writeMembers_cons]
+      have h1 := readStrBody_esc k (58 :: (writeVal v ++ mtail [] tl)) []
+        (((k.map Json.escByte).flatten ++ 34 :: 58 :: (writeVal v ++ mtail [] tl)).length + 1) h.1
+        (by have := length_le_esc k; simp only [List.length_append]; omega)
+      have h2 := readValue_write checkInt (writeVal v ++ mtail [] tl).length v 125 tl h.2 (Or.inr rfl)
+      rw [List.nil_append] at h1
+      rw [readFields_step checkInt g k v _ _ _ acc h1 h2, skipWs_cons 125 _ (by decide)]
+      rfl
+  | cons f' fs ih =>
+    cases fuel with
+    | zero => simp at hf
+    | succ g =>
+      obtain ⟨k, v⟩ := f
+      have h' : fieldsOK (f' :: fs) = true := by
+        simp only [fieldsOK, List.all_cons, Bool.and_eq_true] at h ⊢
+        exact h.2
+      simp only [fieldsOK, List.all_cons, Bool.and_eq_true] at h
+      rw [writeMembers_cons]
+      have h1 := readStrBody_esc k (58 :: (writeVal v ++ mtail (f' :: fs) tl)) []
+        (((k.map Json.escByte).flatten ++ 34 :: 58 :: (writeVal v ++ mtail (f' :: fs) tl)).length + 1) h.1.1
+        (by have := length_le_esc k; simp only [List.length_append]; omega)
+      have h2 := readValue_write checkInt (writeVal v ++ mtail (f' :: fs) tl).length v 44
+        (writeMembers (f' :: fs) ++ 125 :: tl) h.1.2 (Or.inl rfl)
+      rw [List.nil_append] at h1
+      rw [readFields_step checkInt g k v _ _ _ acc h1 h2, skipWs_cons 44 _ (by decide)]
+      show readFields checkInt g (writeMembers (f' :: fs) ++ 125 :: tl) (acc ++ [(k, v)]) = _
+      rw [ih f' g _ h' (by simp at hf; omega)]
+      simp
+
+theorem length_le_members (fs : List (List Nat × JVal)) : fs.length ≤ (writeMembers fs).length := by
+  induction fs with
+  | nil => simp
+  | cons f fs ih =>
+    cases fs with
+    | nil => simp [writeMembers, writeStr]
+    | cons g gs =>
+      simp only [writeMembers, List.length_append, List.length_cons] at ih ⊢
+      omega
+
 end JsonPart
+
+/-- the JSON object reader exposes exactly the written fields, in order (duplicates included), without error -/
+theorem json_read_write (checkInt : Bool) (fs : List (List Nat × Json.JVal)) (h : Json.fieldsOK fs = true) :
+    Json.readObject checkInt (Json.writeObj fs) = (fs, false) := by
+  unfold Json.readObject Json.writeObj
+  rw [List.cons_append, skipWs_cons 123 _ (by decide)]
+  cases fs with
+  | nil => simp [Json.writeMembers, skipWs_cons 125 _ (by decide)]
+  | cons f fs =>
+    have e := writeMembers_cons f fs []
+    have hlen := length_le_members (f :: fs)
+    have hr := readFields_members checkInt f fs [] ((Json.writeMembers (f :: fs) ++ [125]).length + 1) [] h
+      (by simp only [List.length_append, List.length_cons] at hlen ⊢; omega)
+    show (match Json.skipWs (Json.writeMembers (f :: fs) ++ [125]) with
+      | 125 :: _ => ([], false)
+      | _ => Json.readFields checkInt ((Json.writeMembers (f :: fs) ++ [125]).length + 1)
+              (Json.writeMembers (f :: fs) ++ [125]) []) = _
+    rw [hr]
+    rw [e, skipWs_cons 34 _ (by decide)]
+    simp
+
+example : Json.readObject true (Json.writeObj
+      [([97, 34], .str [120, 10, 92]), ([98], .int (-42)), ([99], .bool true), ([], .null)])
+    = ([([97, 34], .str [120, 10, 92]), ([98], .int (-42)), ([99], .bool true), ([], .null)], false) :=
+  json_read_write true _ (by decide)
 end C06Writers
